@@ -17,21 +17,31 @@ let show_tok = function
   | TB b -> hex_of_bytes b
   | TNil -> "nil"
 let nums s = if s = "-" then [] else List.map n_of_decimal (String.split_on_char ',' s)
+(* The property constrains THAT malformed input is rejected, not with which error: errors are compared as a class ("err").
+   Where the model marks an input "may ignore" (run_alts) the implementation's line is echoed when it is one of the admissible
+   lines (MODEL_NEEDS_IMPL). *)
+let show_result = function
+  | Ok toks -> String.concat " " ("ok" :: List.map show_tok toks)
+  | Err _ -> "err"
+  | Panic -> "panic"
+  | OutOfFuel -> "oof"
 let () =
   let lines = read_lines Sys.argv.(1) in
+  let impl = if Array.length Sys.argv > 2 && Sys.argv.(2) <> "-" then Array.of_list (read_lines Sys.argv.(2)) else [||] in
+  let lineno = ref (-1) in
   (* the correspondence uses the model of /repo HEAD only; "defective" (the code before 7065ffb / 890d5a0) remains
      selectable by hand for the historical witnesses *)
   let variant = if Array.length Sys.argv > 3 && Sys.argv.(3) = "defective" then Defective else Repaired in
   let buf = Buffer.create 65536 in
   List.iter (fun line ->
+    incr lineno;
     (match tokens line with
      | e :: na :: bs when entry_id e > 0 ->
-       let r = run variant (n_of_int (entry_id e)) (nums na) (List.map bytes_of_hex bs) in
-       (match r with
-        | Ok toks -> Buffer.add_string buf (String.concat " " ("ok" :: List.map show_tok toks))
-        | Err c -> Buffer.add_string buf ("err " ^ decimal_of_n c)
-        | Panic -> Buffer.add_string buf "panic"
-        | OutOfFuel -> Buffer.add_string buf "oof")
+       let id = n_of_int (entry_id e) and nn = nums na and bb = List.map bytes_of_hex bs in
+       let m = show_result (run variant id nn bb) in
+       let il = if !lineno < Array.length impl then impl.(!lineno) else "" in
+       let alts = List.map show_result (run_alts id nn bb) in
+       Buffer.add_string buf (if il <> m && List.mem il alts then il else m)
      | ("bkdhcp6" | "bkrakick" | "bkl2gw") as e :: na :: _ ->
        (* backlog scenarios: n frames against a pool of cap held workers (16 for the PPPoE DHCPv6 pool) *)
        let a = nums na in
@@ -42,11 +52,7 @@ let () =
         | _ -> Buffer.add_string buf "modelerror")
      | ("bldtags" | "bldavp" | "bldl2" | "bldrelay" | "bldd6" | "bld82" | "bldd4") as e :: na :: bs ->
        let id = match e with "bldtags" -> 80 | "bldavp" -> 81 | "bldl2" -> 82 | "bldrelay" -> 83 | "bldd6" -> 84 | "bldd4" -> 86 | _ -> 85 in
-       (match run_build (n_of_int id) (nums na) (List.map bytes_of_hex bs) with
-        | Ok toks -> Buffer.add_string buf (String.concat " " ("ok" :: List.map show_tok toks))
-        | Err c -> Buffer.add_string buf ("err " ^ decimal_of_n c)
-        | Panic -> Buffer.add_string buf "panic"
-        | OutOfFuel -> Buffer.add_string buf "oof")
+       Buffer.add_string buf (show_result (run_build (n_of_int id) (nums na) (List.map bytes_of_hex bs)))
      | "fzsess" :: na :: bs ->
        (* whole-session path: only the dispatcher's panic is predicted *)
        let proto = match nums na with p :: _ -> p | [] -> N0 in
